@@ -124,6 +124,8 @@ class LineWatch:
         self.tool = 3
         self.codes = {}
         for label, fn in functions:
+            if fn is None:
+                continue   # a private helper that this tree does not have (renamed, merged): nothing to watch, nothing to report
             fn = getattr(fn, "__vmon_wrapped__", fn)
             fn = getattr(fn, "__wrapped__", fn)
             fn = getattr(fn, "__func__", fn)
